@@ -18,6 +18,7 @@ while [ $# -ge 2 ]; do
   LOG="$OUT/confirm_${ID}_$N.log"; : > "$LOG"
   git checkout -q -- . ; git clean -qfd -e target
   git checkout -q --detach "$(git -C /repo rev-parse HEAD)" 2>>"$LOG"
+  mkdir -p chalk-integration/tests
   cp "$DEMO" "chalk-integration/tests/$NAME.rs"
   echo "== demo on unchanged tree" >> "$LOG"
   cargo test --offline -p chalk-integration --test "$NAME" >> "$LOG" 2>&1; BASE=$?
